@@ -97,7 +97,7 @@ def body():
                             chk.count((key, kind, name, order), True)
                             chk.cov["obligations_replayed"] += len(obs)
                             e_ = np.abs(got - want).max() / max(1e-9, np.abs(want).max())
-                            if e_ > 1e-10:
+                            if not (e_ <= 1e-10):   # NaN counts as a deviation
                                 fail("probe_potential:%s:%s" % (name, kind), "probe potential through potential.laplace.%s (%s, order %d) deviates from the exact values by %.3g" % (name, kind, order, e_))
                     # spaces assembled from segment-wise pieces, one of them seen with swapped normals
                     segs = sorted(set(dom.tolist()))
@@ -111,7 +111,7 @@ def body():
                         val = np.asarray(pot.double_layer(ds, X).evaluate(api.GridFunction(ds, coefficients=cs))).ravel()
                         pieces += -val if swap else val
                     chk.count((key, "segments", order), True)
-                    if np.abs(pieces - full_dl).max() > 1e-10 * max(1e-9, np.abs(full_dl).max()):
+                    if not (np.abs(pieces - full_dl).max() <= 1e-10 * max(1e-9, np.abs(full_dl).max())):   # NaN counts as a deviation
                         fail("segments:double_layer", "double-layer probe potential assembled from segment-wise pieces (one with swapped normals) differs from the whole-grid one by %.3g (order %d)" % (
                             np.abs(pieces - full_dl).max() / np.abs(full_dl).max(), order))
             # ---- the representation formula with the real kernels
@@ -132,7 +132,7 @@ def body():
                     err = np.abs(val - want).max() / umax
                     worst = max(worst, float(err))
                     chk.count((key, "representation", tuple(a), order), True)
-                    if err > 1e-6:
+                    if not (err <= 1e-6):   # NaN counts as a deviation
                         k_ = int(np.argmax(np.abs(val - want)))
                         fail("representation", "V[a.n](x) - K[u](x) is off by %.3g (relative) at x = %s (%s) for u = %s.x + %s at regular order %d" % (
                             err, X[:, k_].tolist(), "inside" if inside[k_] else "outside", a.tolist(), b0, order))
@@ -148,7 +148,7 @@ def body():
                             if ps.local_multipliers[e, i] != 0:
                                 vs[ps.local2global[e, i]] = el_all[e, i]
                     acc += pot.double_layer(ps, X).evaluate(api.GridFunction(ps, coefficients=g.vertices[:, vs].T.dot(a) + b0)).ravel()
-                if np.abs(acc - whole).max() > 1e-10 * max(1e-9, np.abs(whole).max()):
+                if not (np.abs(acc - whole).max() <= 1e-10 * max(1e-9, np.abs(whole).max())):   # NaN counts as a deviation
                     fail("segments:p1", "double-layer potential of u assembled from truncated segment-wise P1 pieces differs from the whole-grid one by %.3g" % (np.abs(acc - whole).max() / np.abs(whole).max()))
             # ---- the same surface stretched by (1,2,3): elements of different sizes; potentials of segment-wise pieces (segments that do not
             # start at element 0) must add up to the whole-grid potential, for the real kernels (exact relation, no premise on the points)
@@ -167,7 +167,7 @@ def body():
                         cs = c.reshape(ne, nloc)[ps.support].ravel()
                         acc += np.asarray(fac(ps, XS).evaluate(api.GridFunction(ps, coefficients=cs))).ravel()
                     chk.count((key, "stretched_segments", kind, name), True)
-                    if np.abs(acc - whole).max() > 1e-10 * max(1e-9, np.abs(whole).max()):
+                    if not (np.abs(acc - whole).max() <= 1e-10 * max(1e-9, np.abs(whole).max())):   # NaN counts as a deviation
                         fail("segments:stretched:%s" % name, "%s potential of a %s density on the surface stretched by (1,2,3): segment-wise pieces add up to something that differs from the whole-grid potential by %.3g" % (
                             name, kind, np.abs(acc - whole).max() / np.abs(whole).max()))
             chk.sample({"solid": obs[0]["cells"][:4], "points": len(obs), "inside_points": int(inside.sum()), "first_point": obs[0]["x2"]})
